@@ -14,10 +14,12 @@
                               of the grammar and every text that lexes to its token kinds (= every
                               layout), the ranges are (line of `proc`, line of the closing brace) per
                               procedure declaration in source order
-   [fold_pre] / [tree_pre] are evaluated by the judge on every document of the check (it must hold);
-   that the parser's trees satisfy [tree_pre] for ALL texts (also malformed ones) is not proved. *)
+     C17_wellformed_total     for EVERY text (valid program or not, any syntax errors) the analysed
+                              document satisfies [fold_pre] (Proofs/TotalFold.v), hence the handler
+                              answers and its ranges are well-formed - no hypothesis left
+   [fold_pre] / [tree_pre] are still evaluated by the judge on every document of the check. *)
 From Coq Require Import String.
-From Spl Require Import Model.Fold Spec.LspText Spec.Grammar Proofs.FoldProofs Proofs.FoldValid.
+From Spl Require Import Model.Fold Spec.LspText Spec.Grammar Proofs.FoldProofs Proofs.FoldValid Proofs.TotalFold.
 Local Open Scope string_scope.
 Local Open Scope list_scope.
 Local Open Scope N_scope.
@@ -48,6 +50,23 @@ Theorem C17_wellformed_new_doc : forall (t : text) (d : doc),
   exists rs, fold d = ROk rs /\ ranges_wf (nlines t) 0 rs.
 Proof. exact fold_wellformed_new_doc. Qed.
 Print Assumptions C17_wellformed_new_doc.
+
+(* ... and no hypothesis at all: the tree half holds for every parser output (Proofs/TotalFold.v) *)
+Theorem C17_fold_pre_total : forall (t : text) (d : doc), new_doc_res t = ODone d -> fold_pre d = true.
+Proof. exact new_doc_fold_pre. Qed.
+Print Assumptions C17_fold_pre_total.
+
+Theorem C17_wellformed_total : forall (t : text) (d : doc),
+  new_doc_res t = ODone d ->
+  exists rs, fold d = ROk rs /\ ranges_wf (nlines t) 0 rs.
+Proof.
+  intros t d H. destruct (fold_wellformed d (new_doc_fold_pre t d H)) as [rs [E W]].
+  exists rs. split; [exact E|]. unfold new_doc_res in H.
+  destruct (lex t) as [toks|]; [|discriminate H]. destruct (parse toks) as [p| |]; try discriminate H.
+  destruct (build_res p) as [[p1 tb]|s]; [|discriminate H]. destruct (analyze_res p1 tb) as [p2|s]; [|discriminate H].
+  injection H as <-. exact W.
+Qed.
+Print Assumptions C17_wellformed_total.
 
 (* the predicate also holds on a text that is no program at all; the stray `}` do not produce ranges *)
 Example C17_wellformed_new_doc_ex :
